@@ -23,6 +23,11 @@ only (the code's behaviour, finding KF-C02-legacy-crc). `C02_wellformed_full` â€
 `def`: `C02_legacy_crc_witness` refutes it for a 12-byte header. The theorems take the hypothesis that the output is a
 byte stream (`C02_ByteOK`: true by type in the code, a fact about `Nat`s in the model).
 `WellFormed` as a whole is also evaluated on the implementation's bytes by the driver (`--prop` of family encw).
+The clause "the library's own integrity check accepts the stream and counts the same number of sequences":
+`C02_integrity_accepts` (model of `CheckIntegrity`, mixed header sizes, no byte hypothesis), `C02_integrity_accepts_as_built`,
+`C02_reference_accepts` (14-byte headers: the declarative integrity rules themselves), at the end of this file. The clause
+"header and CRC values written back equal the bytes on the wire": `C02_writeback_steps`, `C02_writeback`
+(FitProps/C02Writeback.lean). The byte hypothesis discharged: `C02_byteok_of_typed` (FitProps/C02Bytes.lean).
 -/
 namespace Fit.C02
 open Fit.Wire
